@@ -379,6 +379,9 @@ func (g *Gen) genC04() {
 			if r.P(40) {
 				u = "sip:" + s
 			}
+			if r.P(15) { // inputs around the scheme-length guards
+				u = r.ReCase(r.Pick("", "s", "si", "sip", "sips", "tel", "sip:", "tel:", "sips:", "sipx", "sips;")) + r.RandBytes("a:@;?1", 0, 2)
+			}
 			line = fmt.Sprintf("uri | B %s | P %d 0 0 | O | V | T | V | A %d %d | O", hx(u), len(u), r.N(300), r.N(len(u)+4))
 			kind = "uri-views-adjust"
 		case 10:
